@@ -3,7 +3,7 @@ CONSTANTS
   IdSeqs <- MCIdSeqs
   Names = {"tau", "my_p", "sources"}
   Shapes = {"scalar", "len1", "len2", "len12"}
-  Paths = {"df", "pt", "csv", "json"}
+  Paths = {"df", "pt", "csv", "json", "json_sorted"}
   MaxParams = 2
   ScalarOK = FALSE
   UnderscoreOK = FALSE
